@@ -503,7 +503,7 @@ def find_impl(src, impl, rel):
     return j, end, impl.split()[-1], aliases
 
 
-def parse_fn(repo, rel, name, impl=None, allow_continue=False):
+def parse_fn(repo, rel, name, impl=None, allow_continue=False, pre=None):
     src = strip_comments(open(os.path.join(repo, rel)).read())
     lo, hi, selfty, aliases = 0, None, None, {}
     if impl is not None:
@@ -521,7 +521,7 @@ def parse_fn(repo, rel, name, impl=None, allow_continue=False):
         else: lo, hi, selfty, aliases = find_impl(src, impl, rel)
     off, line = find_fn(src, name, rel if impl is None else f"{rel} (impl {impl})", lo, hi)
     j = src.index("{", off); end = brace_block(src, j, f"fn {name} in {rel}")
-    toks = tokenize(src[off:end], line)
+    toks = tokenize(src[off:end] if pre is None else pre(src[off:end], name), line)      # `pre` (phase 4k): table-declared text rewrite (float erasure)
     p = Parser(toks, name); p.allow_continue = allow_continue
     fn = p.fn_item()
     end_line = toks[p.i - 1][2]
@@ -685,7 +685,7 @@ def assigned(x, acc=None, declared=None, push=False):
             r = lvalue_root(x[1])
             if r: acc.add(r)
             assigned(x[3], acc, declared)
-        elif x[0] == "mcall" and x[2] == "copy_from_slice":
+        elif x[0] == "mcall" and x[2] in ("copy_from_slice", "fill"):      # (`fill`: phase 4k)
             r = lvalue_root(x[1])
             if r: acc.add(r)
             assigned(x[3], acc, declared)
@@ -1001,6 +1001,11 @@ class FnLower:
                     ix = tab_index(e[2][1], ent)
                     if ix is None: self.fail(f"extern `{ent['call']}`: second argument is not `&{ent['tables']}[i]`")
                     return (ent, ix, e[2][0], False)
+        if e[0] == "call" and len(e[2]) == 1:
+            # phase 4k: a free function of ONE `&[u64]` argument returning a u64 (`F : List Nat -> Nat`): stands for a float computation erased by
+            # the table (`pre_text`), e.g. `round_q(&temp[a..b])`
+            for ent in exts:
+                if ent.get("fcall") == "::".join(e[1]): return (ent, None, e[2][0], "fcall")
         if e[0] == "mcall" and len(e[3]) == 1:
             for ent in exts:
                 if ent.get("mcall") == e[2]:
@@ -1018,7 +1023,7 @@ class FnLower:
         return None
 
     RCALL_TY = "List Nat → List Nat → R (List Nat)"
-    def ext_ty(self, ent): return self.RCALL_TY if "rcall" in ent else self.EXTERN_TY
+    def ext_ty(self, ent): return self.RCALL_TY if "rcall" in ent else "List Nat → Nat" if "fcall" in ent else self.EXTERN_TY
 
     def ex_m(self, e, env, ops):
         k = e[0]
@@ -1291,6 +1296,11 @@ class FnLower:
             return ("v", Val(f"(Int.natAbs {a.atom})", "u64", a.deps))
         if recv[0] == "path" and len(recv[1]) == 1 and recv[1][0] in env and env[recv[1][0]].kind in ("list", "modlist", "moplist"):
             if m == "len" and not args: return ("v", Val(f"{env[recv[1][0]].lean}.length", "usize", [env[recv[1][0]].lean]))
+            if m == "is_empty" and not args: return ("v", Val(f"({env[recv[1][0]].lean}.length = 0)", "bool", [env[recv[1][0]].lean]))      # phase 4k
+            if m == "fill" and len(args) == 1 and env[recv[1][0]].kind == "list" and getattr(env[recv[1][0]], "mut", False):              # phase 4k: `x.fill(w)`
+                a = self.word(self.ex(args[0], env, ops), "fill value")
+                ops.append(("let", env[recv[1][0]].lean, f"List.replicate {env[recv[1][0]].lean}.length {a.atom}"))
+                return ("v", Val("()", "unit"))
             self.fail(f"slice method {m}()")
         if m in ("wrapping_add", "wrapping_sub", "wrapping_mul") and len(args) == 1:
             a, b = self.seq([lambda: self.ex(recv, env, ops), lambda: self.ex(args[0], env, ops)], ops)
@@ -1534,6 +1544,7 @@ class FnLower:
     def arr_arg(self, a, env, width, what, mut):
         a = strip_paren(a)
         if a[0] == "ref": a = strip_paren(a[2])
+        if a[0] == "mcall" and a[2] in ("as_mut_slice", "as_slice") and not a[3]: a = strip_paren(a[1])      # phase 4k: `arr.as_mut_slice()` = `&mut arr`
         if a[0] == "path" and len(a[1]) == 1:
             v = self.lookup(env, a[1][0])
             if v.kind in ("arr", "outarr"):
@@ -1619,6 +1630,10 @@ class FnLower:
     def extern_call(self, exn, env, ops):
         ent, ixe, data, recv_first = exn
         cell = {}
+        if recv_first == "fcall":                        # phase 4k: pure function of one slice
+            v = self.list_arg(data, env, ops, f"extern {ent['binder']}")
+            self.extern_used.add(ent["binder"])
+            return ("v", Val(f"({ent['binder']} {v.atom})", "u64", set(v.deps) | {ent["binder"]}))
         if recv_first == "rcall":                        # phase 4f: `recv.method(&input, &mut output)`; arguments in evaluation order
             def th_in(): return self.list_arg(data[0], env, ops, f"extern {ent['binder']}")
             def th_out():
@@ -1715,6 +1730,9 @@ class FnLower:
             elif kind == "modlist":
                 a2 = strip_paren(a)
                 if a2[0] == "ref": a2 = strip_paren(a2[2])
+                abm = self.abstracted(a2, env) if getattr(self, "abs", None) else None
+                if abm is not None and abm[1] is not None and abm[1][1] == "List Modulus":      # phase 4k: an abstracted `&[Modulus]` getter (`self.base_q.base()`) as argument
+                    thunks.append(lambda n=abm[1][0]: Val(n, "modlist", [n])); continue
                 if not (a2[0] == "path" and len(a2[1]) == 1 and self.lookup(env, a2[1][0]).kind == "modlist"): self.fail(f"call to {fname}: `&[Modulus]` argument")
                 thunks.append(lambda a2=a2: Val(env[a2[1][0]].lean, "modlist", [env[a2[1][0]].lean]))
             elif kind == "mlist":
@@ -1930,6 +1948,9 @@ class FnLower2(FnLower):
             v = Var("closure", None, rust=pat); v.closure = (cname, capnames, ptys, rty, mon); env[pat] = v
             return
         ab = self.abstracted(i0, env)
+        if ab is None and i0[0] == "ref" and not i0[1]:                 # phase 4k: `let h = &<opaque accessor chain>;` names the same handle
+            ab2 = self.abstracted(strip_paren(i0[2]), env)
+            if ab2 is not None and ab2[1] is None: ab = ab2
         if ab is not None and ab[1] is None:
             env[pat] = Var("handle", ab[0], rust=pat); return          # a local standing for an opaque accessor chain
         if ab is not None and self.opts.get("alias_abstract") and ab[1][1] == "Nat" and not mut and pat not in self.strictly_assigned and ty is None:
@@ -1954,6 +1975,14 @@ class FnLower2(FnLower):
             env[pat] = Var("cr", self.modvar(i0[1], env), rust=pat); return
         if i0[0] == "path" and len(i0[1]) == 1 and i0[1][0] in env and env[i0[1][0]].kind in ("mod", "mulop", "cr", "list", "modlist", "moplist"):
             env[pat] = env[i0[1][0]]; return
+        # phase 4k: `let row = self.matrix[i].as_slice();` / `= &self.matrix[i];`: a read-only row of an abstracted `Vec<Vec<u64>>` (bounds-checked here)
+        r0 = i0
+        if r0[0] == "mcall" and r0[2] == "as_slice" and not r0[3]: r0 = strip_paren(r0[1])
+        if r0[0] == "ref" and not r0[1]: r0 = strip_paren(r0[2])
+        ai0 = self.abs_indexed(r0, env, mark=False) if getattr(self, "abs", None) else None
+        if ai0 is not None and ai0[0][1] == "List (List Nat)" and not mut and pat not in self.strictly_assigned:
+            rv = self.list_arg(r0, env, ops, f"`let {pat}`")
+            env[pat] = Var("list", rv.atom, rust=pat); return
         n = self.newvar(pat)
         if i0[0] == "vec" and not i0[1] and pat in self.ilist_vars:       # phase 4d: `let mut res = vec![]` of the returned `Vec<i32>`
             ops.append(("let", f"{n} : List Int", "[]")); env[pat] = Var("ilist", n, rust=pat); return
@@ -2147,7 +2176,19 @@ class FnLower2(FnLower):
         if self.abs and not self.loop_stack:
             # phase 4f: the continuation of a top-level `for` is emitted inside it (at exhaustion): the abstracted inputs the REST of the
             # function reads are captured too (before: an unbound identifier in the generated file, i.e. no such function was ever accepted)
-            for (bn, bt) in self.abs_in([list(stmts[i + 1:]), tail] if tail is not None else [list(stmts[i + 1:])], env):
+            envc = env
+            for st in stmts[i + 1:]:
+                # phase 4k: a handle local introduced by the continuation (`let h = &self.conv;`) is known while scanning the continuation,
+                # so that an extern receiver call through it (`h.as_ref().unwrap().fast_convert_array(..)`) is captured as well
+                if st[0] == "let" and isinstance(st[1], str) and st[4] is not None:
+                    j0 = strip_paren(st[4])
+                    if j0[0] == "ref" and not j0[1]: j0 = strip_paren(j0[2])
+                    try: cc = self.canon(j0, envc)
+                    except Exception: cc = None
+                    if cc is not None and cc in self.abs and self.abs[cc] is None:
+                        if envc is env: envc = dict_copy(env)
+                        envc[st[1]] = Var("handle", cc, rust=st[1])
+            for (bn, bt) in self.abs_in([list(stmts[i + 1:]), tail] if tail is not None else [list(stmts[i + 1:])], envc):
                 if bn not in cap_names: cap_names.append(bn); cap_binders.append(f"({bn} : {bt})")
         if self.opts.get("alias_abstract"):
             # captured inputs in TABLE order after the ordinary locals (independent of the order of the `let`s that name them)
@@ -2629,7 +2670,7 @@ class FnTranslate(FnLower2):
             if pt[0] == "selfty":
                 st = self.tr.structs.get(fn["selfty"])
                 if st is None:
-                    if not self.abs: self.fail(f"`self` of unregistered struct {fn['selfty']} (and no abstraction table)")
+                    if not self.abs and not self.opts.get("extern"): self.fail(f"`self` of unregistered struct {fn['selfty']} (and no abstraction table)")      # (phase 4k: an `extern` table alone also makes `self` a handle)
                     params.append(("handle",)); env[pn] = Var("handle", "self", rust=pn); np -= 1; self.namemap.pop(); continue
                 if pt[1] == "val": self.fail("by-value `self`")
                 params.append(("structmut" if pt[1] == "mut" else "struct", fn["selfty"]))
@@ -2830,6 +2871,12 @@ class FnTranslate(FnLower2):
             self.fn = Skeleton(self, self.fn, self.opts["skeleton"]).run()
         if self.opts.get("iters"):
             self.fn = dict(self.fn); self.fn["body"] = desugar_iters(self.fn["body"], self.fail, [0])
+        if self.opts.get("enum_iters"):                                     # phase 4k: `.iter().enumerate()` / `.chunks(k).enumerate()` chains (tools/rs2lean_rns4k.py)
+            from rs2lean_rns4k import desugar_enumerate
+            self.fn = dict(self.fn); self.fn["body"] = desugar_enumerate(self.fn["body"], self.fail, self.fn["name"])
+        if self.opts.get("elem_borrows"):                                   # phase 4k: `let d = &mut x[i];` (tools/rs2lean_rns4k.py)
+            from rs2lean_rns4k import desugar_elem_borrows
+            self.fn = dict(self.fn); self.fn["body"] = desugar_elem_borrows(self.fn["body"], self.fail)
         env = self.signature()
         force = self.opts.get("monadic", False)
         # registered before lowering so that recursive calls resolve (monadic flag fixed by the table for recursive functions)
@@ -3158,7 +3205,7 @@ class Translator:
         for ent in spec["table"]:
             try:
                 if "struct" in ent: out.append(self.struct_entry(ent)); continue
-                fn = parse_fn(self.repo, ent["file"], ent["fn"], ent.get("impl"))
+                fn = parse_fn(self.repo, ent["file"], ent["fn"], ent.get("impl"), pre=ent.get("pre_text"))
                 out.append(FnTranslate(self, fn, ent).translate())
             except Unsupported as ex:
                 raise Unsupported(f"rs2lean: {ent['file']}: {'fn ' + ent['fn'] if 'fn' in ent else 'struct ' + ent['struct']}: {ex}")
@@ -3352,6 +3399,7 @@ RNS_Q = [("self.base_q.len()", "qSize", "Nat"), ("self.base_q.base_at(#)", "base
 RNS_QB = [("self.base_q.len()", "qSize", "Nat"), ("self.base_q.base()",), ("self.base_q.base()[#]", "baseQ", "List Modulus"),
           ("self.coeff_count", "coeffCount", "Nat"), ("self.inv_q_last_mod_q[#]", "invQLastModQ", "List MulOperand"),
           ("self.t", "tMod", "Modulus"), ("self.inv_q_last_mod_t", "invQLastModT", "Nat")]
+from rs2lean_rns4k import TABLE_RNS_4K      # phase 4k (worker Q): the rest of the BEHZ layer
 TABLE_RNS = [
     {"file": MD, "fn": "reduce", "impl": "Modulus", "lean": "modulus_reduce", "model": "barrett64"},
     {"file": UP, "fn": "modulo", "iters": True, "model": "mapM barrett64"},
@@ -3387,7 +3435,7 @@ TABLE_RNS = [
      "abstract": [("self.base_q.len()", "qSize", "Nat"), ("self.base_Bsk.len()", "bskSize", "Nat"), ("self.coeff_count", "coeffCount", "Nat"),
                   ("self.base_Bsk.base_at(#)", "baseBsk", "List Modulus"), ("self.inv_prod_q_mod_Bsk[#]", "invProdQModBsk", "List MulOperand")],
      "extern": [{"rcall": "self.base_q_to_Bsk_conv.fast_convert_array", "binder": "qToBskF"}]},
-]
+] + TABLE_RNS_4K
 PRELUDE_RNS = """/-- bounds-checked reads of the list inputs that stand for `Vec<Modulus>` / `Vec<MultiplyU64ModOperand>` fields -/
 def idxMod (l : List Modulus) (i : Nat) : R Modulus := match l[i]? with | some x => .ok x | none => .error .oob
 def idxOp (l : List MulOperand) (i : Nat) : R MulOperand := match l[i]? with | some x => .ok x | none => .error .oob
@@ -3520,7 +3568,7 @@ FILES += [
     ("EvalCtFns.lean", {"ns": "GenC", "imports": ["Heathcliff.Gen.PolyFns", "Heathcliff.Gen.EvalFns"], "table": TABLE_EVALCT,
                         "opens": ["HC.GenW", "HC.GenP"], "prelude": EVALCT_PRELUDE}),
     ("ScalingFns.lean", {"ns": "GenS", "imports": ["Heathcliff.Gen.WordFns"], "table": TABLE_SCALING, "opens": ["HC.GenW"], "prelude": SCALING_PRELUDE}),
-    ("RnsFns.lean", {"ns": "GenR", "imports": ["Heathcliff.Gen.WordFns"], "table": TABLE_RNS, "opens": ["HC.GenW"], "prelude": PRELUDE_RNS}),
+    ("RnsFns.lean", {"ns": "GenR", "imports": ["Heathcliff.Gen.WordFns", "Heathcliff.Gen.PolyFns"], "table": TABLE_RNS, "opens": ["HC.GenW"], "prelude": PRELUDE_RNS}),
 ]
 
 # Gen/Word2Fns.lean (phase 4d): more of src/util/basic.rs - the 192-bit shifts, multi-word comparison, the in-place add / sub and the
@@ -3553,6 +3601,9 @@ TABLE_WORD2 = [
 ]
 FILES += [
     ("Word2Fns.lean", {"ns": "GenW2", "imports": ["Heathcliff.Gen.WordFns"], "table": TABLE_WORD2, "opens": ["HC.GenW"], "prelude": PRELUDE_WORD2}),
+    # phase 4k (worker Q): after Word2Fns, whose functions it calls
+    ("Rns2Fns.lean", {"ns": "GenR2", "imports": ["Heathcliff.Gen.RnsFns", "Heathcliff.Gen.Word2Fns"], "table": __import__("rs2lean_rns4k").TABLE_RNS2_4K,
+                      "opens": ["HC.GenW", "HC.GenR"]}),
 ]
 # Gen/DwtFns.lean (phase 4e, handler mode - tools/rs2lean_dwt.py): the butterfly network `DWTHandler::transform_to_rev` / `transform_from_rev`
 # (src/util/dwthandler.rs, generic over `trait Arithmetic`) and the `NTTTables` wrappers that run it with `ModArithLazy` (src/util/ntt.rs)
